@@ -211,6 +211,12 @@ func runRestoreJob(j rJob, root, outPath string) rResult {
 	if j.Kind == "preexist" {
 		_ = os.WriteFile(outPath, pre, 0o644)
 	}
+	if j.Kind == "staletmp" {
+		// an earlier restore into the same path was killed while it wrote a LONGER database:
+		// its <output>.tmp is still there (j.Arg bytes of non-zero garbage)
+		stale := bytes.Repeat([]byte{0xA5, 0x5A, 0x3C, 0xC3}, int(j.Arg)/4)
+		_ = os.WriteFile(outPath+".tmp", stale, 0o644)
+	}
 	rep := litestream.NewReplicaWithClient(nil, client)
 	opt := litestream.NewRestoreOptions()
 	opt.OutputPath = outPath
@@ -578,6 +584,10 @@ func genRestore(e *env) error {
 		add(s, rJob{Kind: "cancelled", Integ: 1, Cancel: true, Class: s.name + "/cancelled-context+quick_check"})
 		add(s, rJob{Kind: "cancelled", Integ: 0, Cancel: true, Class: s.name + "/cancelled-context"})
 		add(s, rJob{Kind: "preexist", Class: s.name + "/pre-existing-output"})
+		// a staging file left over from a killed earlier restore: longer than, and shorter than, the image
+		add(s, rJob{Kind: "staletmp", Arg: 4 << 20, Class: s.name + "/stale-longer-temp-file"})
+		add(s, rJob{Kind: "staletmp", Arg: 4 << 20, Integ: 1, Class: s.name + "/stale-longer-temp-file+quick_check"})
+		add(s, rJob{Kind: "staletmp", Arg: 1024, Class: s.name + "/stale-shorter-temp-file"})
 		for _, pf := range s.plan {
 			base := rJob{Level: pf.level, Min: pf.min, Max: pf.max}
 			pfOf[len(jobs)] = pf
@@ -743,6 +753,8 @@ func genRestore(e *env) error {
 			e.violation("C10/read-faults-within-budget-not-retried", fmt.Sprintf("replica %s: %d consecutive failures (kind %d) at offset %d of level %d %d-%d: %s", s.name, j.Arg2, j.RFKind, j.Arg, j.Level, j.Min, j.Max, res.Err), replay)
 		case j.Kind == "readfault" && j.Arg2 > 3 && res.Class != 1:
 			e.violation("C10/read-faults-beyond-budget-not-reported", fmt.Sprintf("replica %s: %d consecutive failures (kind %d) at offset %d did not fail the restore", s.name, j.Arg2, j.RFKind, j.Arg), replay)
+		case j.Kind == "staletmp" && res.Class != 0:
+			e.violation("C10/restore-fails-over-stale-temp-file", s.name+": "+res.Err, replay)
 		case j.Kind == "none" && res.Class != 0:
 			e.violation("C10/uncorrupted-restore-fails", s.name+": "+res.Err, replay)
 		}
